@@ -50,8 +50,23 @@ def replay(path):
     os.makedirs(wd)
     print("replay of %s: property %s, tier %s, seed %s, %d failure(s) recorded" % (
         path, rp["property"], rp["tier"], rp["seed"], rp["n_failures"]))
+    big = [f for f in rp["failures"] if isinstance(f.get("record"), dict) and str(f["record"].get("op", "")).startswith("big_")]
+    if big:
+        # large-magnitude records: Apalache re-decides the closed-form relations of each record on its own
+        recs = []
+        for fl in big:
+            if fl["record"] not in recs:
+                recs.append(fl["record"])
+        sub = os.path.join(wd, "big")
+        os.makedirs(sub)
+        bad, nrel = vflib.big_check(sub, recs, chunk=1, max_rounds=1)
+        for i, r in enumerate(recs):
+            print("  record %d (op %s) is %s by Apalache (ClosedForms.tla)" % (i + 1, r["op"], "refuted again" if i in bad else "accepted"))
+            print("    input: " + vflib.canon(vflib.shorten(r.get("in"), 1500)))
+            print("    recorded outcome: " + vflib.canon(vflib.shorten(r.get("out"), 900)))
+        print("  %d of %d large-magnitude records refuted again (%d relations)" % (len(bad), len(recs), nrel))
     indep = [f for f in rp["failures"] if isinstance(f.get("record"), dict) and "in" in f["record"] and "out" in f["record"]
-             and f["record"].get("op") != "total"]
+             and f["record"].get("op") != "total" and f not in big]
     if indep:
         tr = os.path.join(wd, "trace.ndjson")
         seen = []
@@ -89,7 +104,8 @@ def replay(path):
                     wit = [ln for ln in out.splitlines() if "WITNESS" in ln]
                     print("    no invariant violated on re-exploration; witnesses reached: %s" % sorted(set(wit))[:20])
                 break
-    other = [f for f in rp["failures"] if f not in indep and not any(k in (f.get("record") or {}) for k, _, _ in WORLD_SPECS)]
+    other = [f for f in rp["failures"] if f not in indep and f not in big
+             and not any(k in (f.get("record") or {}) for k, _, _ in WORLD_SPECS)]
     for fl in other[:10]:
         print("  stage %s op %s check %s: %s" % (fl.get("stage"), fl.get("op"), fl.get("check"),
                                               vflib.canon(vflib.shorten(fl.get("record"), 1500))))
@@ -351,6 +367,11 @@ def c06(run):
     trace_stage(run, "rta", "rta",
                 nontrivial=lambda e: e["out"].get("ok", -1) not in (0, e["in"]["tua"].get("C", -2)),
                 keyfn=lambda e: {k: v for k, v in e["in"].items() if k != "tags"})
+    # the scenarios of the repository's own unit tests (horizons <= 1000) with the values pinned there: the library, the
+    # pinned value and the defining equations of the specification must all coincide (a check of the specification too)
+    trace_stage(run, "suite-scenarios", "suite", extra=["--only", "rta"],
+                nontrivial=lambda e: e["out"].get("ok", -1) not in (0, e["in"]["tua"].get("C", -2)),
+                keyfn=lambda e: {k: v for k, v in e["in"].items() if k != "tags"})
 
 
 SCHED_RULE = ("systems: task sets (2-3 tasks, thorough 2-4; periodic / sporadic+jitter / delta-min-prefix arrivals, T<=7 (10), C<=3 (4), "
@@ -465,6 +486,9 @@ def c07(run):
     run.assumptions += ["definitional evaluation over the demand / arrival / cost tables recorded from the objects passed to the analysis",
                         "supply-bound function from Supply.tla (reservation parameters alone)"]
     trace_stage(run, "ros2", "ros2", nontrivial=lambda e: e["out"].get("ok", -1) != 0,
+                keyfn=lambda e: {k: v for k, v in e["in"].items() if k != "tags"})
+    # the ROS 2 scenarios of the repository's own unit tests with the values pinned there (see C06)
+    trace_stage(run, "suite-scenarios", "suite", extra=["--only", "ros2"], nontrivial=lambda e: e["out"].get("ok", -1) != 0,
                 keyfn=lambda e: {k: v for k, v in e["in"].items() if k != "tags"})
 
 
